@@ -105,6 +105,8 @@ class Ctx:
         if len(v['witnesses']) < MAX_WITNESS_PER_MECH:
             if getattr(self, 'debug_logging', False) and isinstance(witness, dict):
                 witness = dict(witness, debug_logging=True)
+            if getattr(self, 'shard_environment', None) and isinstance(witness, dict):
+                witness = dict(witness, shard_environment=self.shard_environment)
             v['witnesses'].append(witness)
 
     def inconclusive_because(self, reason: str):
@@ -238,6 +240,12 @@ def run_shard(mod, ctx, time_cap=None):
         # DEBUG logging switched on (what `--debug` does in the command-line tools): no statement depends on the log level
         enable_debug_logging(ctx)
         ctx.count('shards run with the library\'s DEBUG logging switched on')
+    label = os.environ.get('VMON_SHARD_ENVIRONMENT')
+    if label:
+        if label.startswith('TZ='):
+            time.tzset()
+        ctx.shard_environment = label              # recorded in every witness found here
+        ctx.count('shards run in another environment: ' + label)
     if ctx.shard == 0:
         mod.canaries(ctx)
     capped = False
@@ -417,3 +425,40 @@ def _brief(values):
     if len(vals) > 40:
         return {'count': len(vals), 'first': vals[:20], 'last': vals[-5:]}
     return vals
+
+
+def threaded_agreement(plans, rounds=300, switch_interval=1e-6):
+    """
+    plans: one list per thread of (callable, args tuple, expected result).  All threads start together and go through their
+    list `rounds` times; a pure function gives each caller its own answer whatever the other threads are doing.
+    Returns (mismatches, alternations): mismatches as (thread, index, got repr); alternations counts how often consecutive
+    completed calls belonged to different threads (zero means the threads never overlapped: inconclusive, not held).
+    """
+    import sys
+    bad, order = [], []
+    start = threading.Barrier(len(plans))
+
+    def work(t):
+        plan = plans[t]
+        start.wait()
+        for r in range(rounds):
+            for i, (fn, args, want) in enumerate(plan):
+                try:
+                    got = fn(*args)
+                except Exception as ex:      # noqa
+                    got = ex
+                order.append(t)
+                if isinstance(got, Exception) or got != want:
+                    bad.append((t, i, repr(got)[:120]))
+                    return
+    old = sys.getswitchinterval()
+    sys.setswitchinterval(switch_interval)
+    try:
+        ths = [threading.Thread(target=work, args=(t,)) for t in range(len(plans))]
+        for th in ths:
+            th.start()
+        for th in ths:
+            th.join(600)
+    finally:
+        sys.setswitchinterval(old)
+    return bad, sum(1 for a, b in zip(order, order[1:]) if a != b)
